@@ -754,10 +754,15 @@ class LogOperationRecorder(BaseOperationRecorder):
             if self.http_detail_level == 'summary':
                 upayload = ""
             elif self.http_maxlen and (len(payload) > self.http_maxlen):
-                upayload = (_ensure_unicode(payload[:self.http_maxlen]) +
-                            '...')
+                # The cut may be inside a multi-byte UTF-8 character
+                upayload = payload[:self.http_maxlen]
+                if isinstance(upayload, bytes):
+                    upayload = upayload.decode('utf-8', errors='replace')
+                upayload += '...'
+            elif isinstance(payload, bytes):
+                upayload = payload.decode('utf-8', errors='replace')
             else:
-                upayload = _ensure_unicode(payload)
+                upayload = payload
             upayload = repr(upayload)
             if upayload.startswith("u'"):
                 upayload = upayload[1:]
@@ -925,7 +930,9 @@ class TestClientRecorder(BaseOperationRecorder):
                             http_response.headers[hdr_name]
             tc_http_response['headers'] = tc_response_headers
             if http_response.payload is not None:
-                data = http_response.payload.decode('utf-8')
+                # The payload may be invalid UTF-8 (that is then reported by
+                # the operation itself); recording must not fail on it.
+                data = http_response.payload.decode('utf-8', errors='replace')
                 data = data.replace('><', '>\n<').strip()
             else:
                 data = None
